@@ -218,7 +218,8 @@ func fenceMatch(
 	if len(res) > 0 && res[0] == ',' {
 		res = res[1:]
 	}
-	if sw.output == outputIDs {
+	if sw.output == outputIDs && !(len(res) > 0 && res[0] == '{') {
+		// (with DISTANCE the writer has produced {"id":..,"distance":..} already)
 		res = `{"id":` + string(res) + `}`
 	}
 
